@@ -19,6 +19,10 @@ type catchSpec struct {
 	Def      gen.EventDef `json:"def"`
 	PreTask  bool         `json:"preTask"`  // a task before the catch event (listener armed only after it is answered)
 	PostTask bool         `json:"postTask"` // a task after it (makes the continuation observable)
+	// Def2: a second event definition (funnel shape); Parallel: the catch event
+	// is parallel-multiple (both definitions must be matched), else either fires it
+	Def2     *gen.EventDef `json:"def2,omitempty"`
+	Parallel bool          `json:"parallel,omitempty"`
 }
 
 type descriptor struct {
@@ -71,6 +75,10 @@ func build(d descriptor) (*gen.Graph, map[string]any) {
 		}
 		c := b.Add(gen.KCatch)
 		c.Defs = []gen.EventDef{d.Catches[0].Def}
+		if d.Catches[0].Def2 != nil {
+			c.Defs = append(c.Defs, *d.Catches[0].Def2)
+			c.ParallelMul = d.Catches[0].Parallel
+		}
 		b.Connect(mrg, c)
 		after := b.Add(gen.KTask)
 		b.Connect(c, after)
@@ -129,6 +137,58 @@ func draw(rt *rapid.T) descriptor {
 		d.Tokens = rapid.IntRange(3, 4).Draw(rt, "tokens")
 		d.Catches = []catchSpec{{Def: drawDef(rt)}}
 		e := evOf(d.Catches[0].Def)
+		if rapid.IntRange(0, 2).Draw(rt, "multi") > 0 {
+			// two definitions: every round the events that complete the listener
+			// are followed back-to-back by surplus matching events, which arrive
+			// when the node has stopped listening and must not count for the next
+			// round's listener
+			d2 := drawDef(rt)
+			for d2.Ref == d.Catches[0].Def.Ref {
+				d2.Ref = map[string]string{"e1": "e2", "e2": "e3", "e3": "e1"}[d2.Ref]
+				if d2.Op != "" {
+					d2.Op = "op_" + d2.Ref
+				}
+			}
+			d.Catches[0].Def2 = &d2
+			d.Catches[0].Parallel = rapid.Bool().Draw(rt, "parallelMultiple")
+			e2 := evOf(d2)
+			for i := 0; i < d.Tokens; i++ {
+				d.Script = append(d.Script, drive.Stim{Kind: "answer", Pick: 0})
+				if rapid.IntRange(0, 3).Draw(rt, "twoAtOnce") == 0 && i+1 < d.Tokens {
+					d.Script = append(d.Script, drive.Stim{Kind: "answer", Pick: 0})
+					i++
+				}
+				var evs []drive.Stim
+				add := func(x model.Ev) { y := x; evs = append(evs, drive.Stim{Kind: "event", Ev: &y}) }
+				first := rapid.Bool().Draw(rt, "order")
+				if first {
+					add(e)
+					add(e2)
+				} else {
+					add(e2)
+					add(e)
+				}
+				for k := rapid.IntRange(0, 3).Draw(rt, "surplus"); k > 0; k-- {
+					switch rapid.IntRange(0, 2).Draw(rt, "surplusKind") {
+					case 0:
+						add(e)
+					case 1:
+						add(e2)
+					default:
+						add(model.Ev{Kind: "signal", Ref: "zz"})
+					}
+				}
+				d.Script = append(d.Script, drive.Stim{Kind: "rapid", Burst: evs})
+				if rapid.Bool().Draw(rt, "answerAfter") {
+					d.Script = append(d.Script, drive.Stim{Kind: "answer", Pick: rapid.IntRange(0, 3).Draw(rt, "pick")})
+				}
+			}
+			// a lone event of each kind at the end: nothing listens any more
+			add := func(x model.Ev) { y := x; d.Script = append(d.Script, drive.Stim{Kind: "event", Ev: &y}) }
+			add(e2)
+			add(e)
+			return d
+		}
 		for i := 0; i < d.Tokens; i++ {
 			d.Script = append(d.Script, drive.Stim{Kind: "answer", Pick: 0})
 			if rapid.IntRange(0, 3).Draw(rt, "twoAtOnce") == 0 && i+1 < d.Tokens {
@@ -268,6 +328,13 @@ func classify(d descriptor, out *drive.ScriptOutcome) (cls []string, nt bool) {
 	}
 	if d.Shape == "funnel" && fired >= 3 {
 		cls = append(cls, "sameCatchEventFired>=3")
+	}
+	if d.Shape == "funnel" && d.Catches[0].Def2 != nil {
+		if d.Catches[0].Parallel {
+			cls = append(cls, "parallelMultipleRearmed")
+		} else {
+			cls = append(cls, "multipleRearmed")
+		}
 	}
 	nt = (events >= 2 && fired >= 1 && events > fired) || d.Shape == "xor"
 	return
